@@ -576,6 +576,15 @@ func (a *Analysis) upper(v ssa.Value, at *ssa.BasicBlock, depth int, seen map[ss
 				continue
 			}
 		}
+		// a signed value known to be non-negative is at most the maximum of its type
+		if c, ok := constOf(y); ok && ((op == token.GEQ && c == 0) || (op == token.GTR && (c == 0 || int64(c) == -1))) {
+			if bt, ok := v.Type().Underlying().(*types.Basic); ok && bt.Info()&types.IsInteger != 0 && bt.Info()&types.IsUnsigned == 0 {
+				if m, ok := typeMax(bt, a.Sizes); ok {
+					better(Bound{Kind: ConstB, C: m, Why: "dominating test for non-negativity of a signed value"})
+				}
+			}
+			continue
+		}
 		if op != token.LSS && op != token.LEQ && op != token.EQL {
 			continue
 		}
@@ -1027,6 +1036,26 @@ func (a *Analysis) checkConvert(fn *ssa.Function, b *ssa.BasicBlock, x *ssa.Conv
 		o.How = "result only feeds time.Unix / formatting, where any value is harmless"
 		return
 	}
+	if uses := realUseBlocks(x); len(uses) > 0 {
+		all := true
+		for _, u := range uses {
+			ub := a.Upper(x.X, u)
+			if !((ub.Kind == ConstB && ub.C <= toMax) || ub.Kind == LenB) {
+				all = false
+				break
+			}
+		}
+		if all {
+			o.OK = true
+			o.How = "at every use of the converted value its operand is bounded and fits " + to.Name()
+			return
+		}
+	}
+	if a.signTested(x) {
+		o.OK = true
+		o.How = "the converted value is used only where it was tested to be non-negative (operand fits " + to.Name() + " there)"
+		return
+	}
 	ub := a.Upper(x.X, b)
 	switch ub.Kind {
 	case ConstB:
@@ -1439,6 +1468,36 @@ func (a *Analysis) checkArith(fn *ssa.Function, b *ssa.BasicBlock, x *ssa.BinOp,
 		return
 	}
 	o := add("U2", x, "arith("+x.Op.String()+")")
+	if ok, how := a.arithOKAt(x, b); ok {
+		o.OK, o.How = true, how
+		return
+	} else {
+		o.How = how
+	}
+	// the result is an SSA value: it is harmless where it is computed, what
+	// matters is what is known where it is used (a sum hoisted above the guard
+	// that bounds its operands)
+	if uses := realUseBlocks(x); len(uses) > 0 {
+		all := true
+		for _, u := range uses {
+			if ok, _ := a.arithOKAt(x, u); !ok {
+				all = false
+				break
+			}
+		}
+		if all {
+			o.OK, o.How = true, "at every use of the result its operands are bounded so that it cannot wrap"
+		}
+	}
+}
+
+func (a *Analysis) arithOKAt(x *ssa.BinOp, b *ssa.BasicBlock) (bool, string) {
+	o := &Obl{}
+	a.decideArith(o, x, b)
+	return o.OK, o.How
+}
+
+func (a *Analysis) decideArith(o *Obl, x *ssa.BinOp, b *ssa.BasicBlock) {
 	tmax, _ := typeMax(x.Type(), a.Sizes)
 	xb, yb := a.Upper(x.X, b), a.Upper(x.Y, b)
 	switch x.Op {
@@ -1570,4 +1629,91 @@ func (a *Analysis) sumWithinAny(x, y ssa.Value, b *ssa.BasicBlock) string {
 		}
 	}
 	return ""
+}
+
+// signTested: x converts an unsigned value to the signed type of the same
+// width and every use of the result is either the comparison with zero itself
+// or lies where the result is known to be non-negative (length := int64(n);
+// if length < 0 { reject }).
+func (a *Analysis) signTested(x *ssa.Convert) bool {
+	from, ok1 := x.X.Type().Underlying().(*types.Basic)
+	to, ok2 := x.Type().Underlying().(*types.Basic)
+	if !ok1 || !ok2 || from.Info()&types.IsUnsigned == 0 || to.Info()&types.IsUnsigned != 0 || a.Sizes.Sizeof(from) != a.Sizes.Sizeof(to) {
+		return false
+	}
+	refs := x.Referrers()
+	if refs == nil || len(*refs) == 0 {
+		return false
+	}
+	tested := false
+	for _, r := range *refs {
+		switch y := r.(type) {
+		case *ssa.DebugRef:
+			continue
+		case *ssa.BinOp:
+			if c, ok := constOf(y.Y); ok && y.X == ssa.Value(x) && c == 0 && (y.Op == token.LSS || y.Op == token.GEQ) {
+				tested = true
+				continue
+			}
+		}
+		ub := a.Upper(x, r.Block())
+		if ub.Kind != ConstB || ub.Why != "dominating test for non-negativity of a signed value" {
+			return false
+		}
+	}
+	return tested
+}
+
+// realUseBlocks: the blocks in which the value computed by v is really used:
+// uses as an operand of further integer arithmetic or of a conversion only
+// derive new values and are followed through; comparisons, calls, stores,
+// indexing, slicing and returns are uses.  A use by a phi counts in the
+// predecessor the value arrives from.
+func realUseBlocks(v ssa.Value) []*ssa.BasicBlock {
+	seen := map[ssa.Value]bool{}
+	set := map[*ssa.BasicBlock]bool{}
+	var out []*ssa.BasicBlock
+	add := func(b *ssa.BasicBlock) {
+		if b != nil && !set[b] {
+			set[b] = true
+			out = append(out, b)
+		}
+	}
+	var walk func(v ssa.Value, d int)
+	walk = func(v ssa.Value, d int) {
+		if d > 6 || seen[v] {
+			return
+		}
+		seen[v] = true
+		refs := v.Referrers()
+		if refs == nil {
+			return
+		}
+		for _, r := range *refs {
+			switch y := r.(type) {
+			case *ssa.DebugRef:
+			case *ssa.Convert:
+				walk(y, d+1)
+			case *ssa.ChangeType:
+				walk(y, d+1)
+			case *ssa.BinOp:
+				switch y.Op {
+				case token.ADD, token.SUB, token.MUL, token.SHL, token.SHR, token.AND, token.OR:
+					walk(y, d+1)
+				default:
+					add(y.Block())
+				}
+			case *ssa.Phi:
+				for i, ed := range y.Edges {
+					if ed == v {
+						add(y.Block().Preds[i])
+					}
+				}
+			default:
+				add(r.Block())
+			}
+		}
+	}
+	walk(v, 0)
+	return out
 }
